@@ -60,7 +60,7 @@ theorem enum_ok (E : Ext) (hU : E.U.AsciiCorrect) (cfg : Cfg) (targetOs : List S
   refine enum_clauses E hU .scala cfg targetOs c r attrs ident gens vs e acronyms _ _ hparse
     (by simp [C01.enumKeys, hi]) ?_
   intro hsc hk
-  exact C02.C02_backend .scala E acronyms _ hsc hk cfg se hd
+  exact C02.C02_backend .scala E hU acronyms _ hsc hk cfg se hd
 
 theorem block_of (cfg : Cfg) {items emitted : List RustItem} {blocks : List Str} (hperm : items.Perm emitted)
     (hpair : Paired (fun it b => C03E.Sc.writeItem cfg it = .ok b) items blocks) {x : RustItem} (hx : x ∈ emitted) :
